@@ -186,3 +186,10 @@ func (s *Sim) ToggleRoundTrip(n, of *core.Node) error {
 	s.logf("client for %s on %s toggled to tss and back to tendermint (err=%v)", of.Name, n.Name, err)
 	return err
 }
+
+// UpgradeClient: governance upgrades the Tendermint client n keeps for chain `of` to a fresh anchor.
+func (s *Sim) UpgradeClient(n, of *core.Node) error {
+	err := s.W.UpgradeTM(n, of, 14*24*time.Hour)
+	s.logf("client for %s on %s upgraded to a fresh anchor (err=%v)", of.Name, n.Name, err)
+	return err
+}
